@@ -206,6 +206,9 @@ class PathSum:
     def payload(self, t, variant, i):
         if t[0] == "ctor" and t[1] == variant:
             return t[2][i] if i < len(t[2]) else UNIT
+        if variant == SOME and i == 0 and is_slice_get(t):
+            # checked slicing: `s.get(range)` is Some(&s[range]) exactly when the range is within bounds
+            return ("index", t[2][0], t[2][1], t[3] if len(t) > 3 else None)
         return ("payload", t, variant, i)
 
     def split_bool(self, st, t):
@@ -457,6 +460,10 @@ class PathSum:
         return self.ev(e["e"], st)
 
     def ev_Cast(self, e, st):
+        # a cast that keeps every value of the source type (u8 -> usize ...) is marked "exact": only those are
+        # transparent to the linear arithmetic (linform)
+        if exact_int_cast(e["e"].get("ty", ""), e["ty"]):
+            return self._map1(e["e"], st, lambda s, v: [("val", s, ("cast", v, e["ty"], "exact"))])
         return self._map1(e["e"], st, lambda s, v: [("val", s, ("cast", v, e["ty"]))])
 
     def ev_Unary(self, e, st):
@@ -1102,6 +1109,31 @@ class PathSum:
 
 
 # ---------------------------------------------------------------------- utilities
+def exact_int_cast(src, dst):
+    """Does `src as dst` keep every value? usize/isize are taken as 16 bits wide as a target and 64 as a source."""
+    def wd(t, as_target):
+        t = t.lstrip("&")
+        if t in ("usize", "isize"):
+            return (t[0], 16 if as_target else 64)
+        if t and t[0] in "ui" and t[1:].isdigit():
+            return (t[0], int(t[1:]))
+        return None
+    a, b = wd(src, False), wd(dst, True)
+    if a is None or b is None:
+        return False
+    if a[0] == "u":
+        return b[1] >= a[1] if b[0] == "u" else b[1] > a[1]
+    return b[0] == "i" and b[1] >= a[1]
+
+
+def is_slice_get(t):
+    """t = <[T]>::get(s, <range>)  (the checked form of &s[range])"""
+    if not (isinstance(t, tuple) and t and t[0] == "call" and len(t[2]) == 2 and t[1].split("::")[-1] == "get" and "slice" in t[1]):
+        return False
+    r = t[2][1]
+    return (r[0] == "struct" and "Range" in r[1]) or (r[0] == "call" and r[1].endswith("RangeInclusive::new"))
+
+
 def strip_sites(t):
     """Remove call-site components from a term so equal computations compare equal."""
     if not isinstance(t, tuple):
